@@ -547,7 +547,20 @@ async fn inject(conv: &mut Conv, e: &Evil, run: &tokio::task::JoinHandle<crate::
                             break;
                         }
                     }
-                    settle().await;
+                    // The peer keeps reading what the real endpoint sends (credit returns, data of a
+                    // blocked send): an endpoint whose transport is not drained rightly stops
+                    // reading, too, and would never see the surplus requests.
+                    for _ in 0..40 {
+                        while let Ok(rxm) = conv.peer.next_msg(1).await {
+                            if let RefMsg::PortCredits { port, credits } = rxm.msg {
+                                conv.peer.credits_seen.push((port, credits));
+                            }
+                        }
+                        if reader.is_finished() || run.is_finished() {
+                            break;
+                        }
+                        settle().await;
+                    }
                     if sent_ports > max_ports + 8 && !reader.is_finished() && !run.is_finished() {
                         return err(
                             "C08/unbounded-port-requests",
